@@ -579,8 +579,9 @@ class Oracle:
             # Appendix A item 15 (C05's subject, only counted here): is a requested CA certificate ever learnt?
             sim.probe("requested-cert:in-accepted-message")
             try:
-                if sc.hashed_id8(pm.header["requestedCertificate"]) in sim.store("aa"):
-                    sim.probe("requested-cert:present-in-aa-store")
+                h = sc.hashed_id8(pm.header["requestedCertificate"])
+                if h in sim.store("aa") and h not in rec.get("aa_before", ()):
+                    sim.probe("requested-cert:learnt")
             except sc.Undecodable:
                 pass
         vm = sc.verify_signed_message(enc, ticket)
